@@ -214,13 +214,16 @@ func (s *gSys) checkQueries() error {
 		if err != nil {
 			return err
 		}
+		scribble(deps)
 		if fmt.Sprint(uniqSorted(di)) != fmt.Sprint(uniqSorted(m.Out[v])) {
 			return fmt.Errorf("GetDependencies(%d)=%v, reference %v (compared as sets); model: %s", v, di, m.Out[v], m)
 		}
-		tr, err := s.ids(g.GetTransitiveDependencies(k.Type, k.Key, k.Group))
+		trKeys := g.GetTransitiveDependencies(k.Type, k.Key, k.Group)
+		tr, err := s.ids(trKeys)
 		if err != nil {
 			return err
 		}
+		scribble(trKeys)
 		reach := m.Reach(v)
 		var want []int
 		for u := 0; u < m.N; u++ {
@@ -233,10 +236,12 @@ func (s *gSys) checkQueries() error {
 			return fmt.Errorf("GetTransitiveDependencies(%d)=%v, reference %v; model: %s", v, got, want, m)
 		}
 		if !pendingBefore {
-			dn, err := s.ids(g.GetDependents(k.Type, k.Key, k.Group))
+			dnKeys := g.GetDependents(k.Type, k.Key, k.Group)
+			dn, err := s.ids(dnKeys)
 			if err != nil {
 				return err
 			}
+			scribble(dnKeys)
 			var wantD []int
 			for u := 0; u < m.N; u++ {
 				for _, w := range m.Out[u] {
@@ -266,22 +271,26 @@ func (s *gSys) checkQueries() error {
 				}
 			}
 		}
-		gr, err := s.nodeIDs(g.GetRoots())
+		roots, leaves := g.GetRoots(), g.GetLeaves()
+		gr, err := s.nodeIDs(roots)
 		if err != nil {
 			return err
 		}
-		gl, err := s.nodeIDs(g.GetLeaves())
+		gl, err := s.nodeIDs(leaves)
 		if err != nil {
 			return err
 		}
+		scribble(roots)
+		scribble(leaves)
 		if fmt.Sprint(gr) != fmt.Sprint(append([]int{}, wr...)) {
 			return fmt.Errorf("GetRoots()=%v, reference %v; model: %s", gr, wr, m)
 		}
 		if fmt.Sprint(gl) != fmt.Sprint(append([]int{}, wl...)) {
 			return fmt.Errorf("GetLeaves()=%v, reference %v; model: %s", gl, wl, m)
 		}
-		// topological order / error iff cyclic (twice: second answer may come from the cache)
-		for rep := 0; rep < 2; rep++ {
+		// topological order / error iff cyclic (three times: later answers may come from the cache, and
+		// every answer is scribbled on once it has been judged)
+		for rep := 0; rep < 3; rep++ {
 			order, terr := g.TopologicalSort()
 			if (terr != nil) != m.Cyclic() {
 				return fmt.Errorf("TopologicalSort (call %d) error=%v but reference cyclic=%v; model: %s", rep+1, terr, m.Cyclic(), m)
@@ -294,6 +303,7 @@ func (s *gSys) checkQueries() error {
 				if verr := m.ValidTopo(oi); verr != nil {
 					return fmt.Errorf("TopologicalSort (call %d) = %v: %v; model: %s", rep+1, oi, verr, m)
 				}
+				scribble(order)
 			}
 		}
 	}
@@ -340,6 +350,19 @@ func (s *gSys) checkQueries() error {
 		}
 	}
 	return nil
+}
+
+// scribble does to a result what callers do to slices they were given - reorder them, filter them
+// in place: every query hands out its own copy (the code takes care to), so this never shows in a
+// later answer.
+func scribble[T any](xs []T) {
+	for i, j := 0, len(xs)-1; i < j; i, j = i+1, j-1 {
+		xs[i], xs[j] = xs[j], xs[i]
+	}
+	if len(xs) > 1 {
+		var zero T
+		xs[len(xs)-1] = zero
+	}
 }
 
 func (s *gSys) nodeIDsUnsorted(ns []*vh.Node) ([]int, error) {
